@@ -175,6 +175,12 @@ def _make_bound_keys(case, nkeys, rng):
         c = rng.random_sample() * nkeys
         w = nkeys * 10.0 ** rng.uniform(-4, -1)
         cuts = sorted(set(int(min(max(c + (x - 0.5) * w, 1), nkeys - 1)) for x in rng.random_sample(ncpu - 1)))
+    elif mode in ("tail", "head"):
+        # all cuts packed at one end of the key range: the first / last domains hold only keys of one corner cube
+        w = max(int(nkeys * 10.0 ** rng.uniform(-3.5, -1.0)), ncpu + 1)
+        offs = sorted(set(int(x) for x in rng.randint(1, w, size=ncpu - 1)))
+        cuts = [nkeys - o for o in offs] if mode == "tail" else offs
+        cuts = sorted(set(cuts))
     else:  # "cube": cuts at boundaries of coarse cubes +-1
         lev = rng.randint(1, case["levelmax"] + 1)
         span = nkeys // (1 << (case["ndim"] * lev))
